@@ -194,7 +194,7 @@ pub fn property() -> Property {
         subchecks: vec![
             SubCheck {
                 name: "single_moves",
-                driver: Driver::Generated { gen: gen_pos_case, genome_len: 192, quick: 600_000, thorough: 12_000_000 },
+                driver: Driver::Generated { gen: gen_pos_case, genome_len: 192, quick: 1_800_000, thorough: 14_400_000 },
                 check: check_case,
                 configs: Configs::Both,
                 required: &["castling", "en_passant", "promotion", "promotion_capture", "double_step", "illegal_semilegal_rollback", "null_move", "counter_at_max"],
@@ -205,7 +205,7 @@ pub fn property() -> Property {
             },
             SubCheck {
                 name: "nested",
-                driver: Driver::Generated { gen: gen_walk_case, genome_len: 320, quick: 200_000, thorough: 4_000_000 },
+                driver: Driver::Generated { gen: gen_walk_case, genome_len: 320, quick: 600_000, thorough: 4_800_000 },
                 check: nested_check,
                 configs: Configs::Both,
                 required: &["illegal_rollback", "null_move", "special_move", "depth>=6", "chain_pop", "chain_refused_push"],
